@@ -23,7 +23,7 @@ pub enum Case {
     Argmax(usize),
     ClassChar(usize, usize),
     InfNorm(usize, Option<f64>, Option<f64>),
-    FromPoly { rows: Vec<(Vec<f64>, f64)>, f_true: Aff, f_false: Option<Aff> },
+    FromPoly { rows: Vec<(Vec<f64>, f64)>, f_true: Aff, f_false: Option<Aff>, fortran: bool },
     /// `elim`: run infeasible_elimination between compose and remove_axes (arena with holes)
     Slice { tree: TSpec, refpt: Vec<Option<f64>>, elim: bool },
 }
@@ -31,7 +31,7 @@ pub enum Case {
 impl Case {
     fn describe(&self) -> Value {
         match self {
-            Case::FromPoly { rows, f_true, f_false } => json!({"from_poly": {"rows": rows, "f_true": f_true.to_json(), "f_false": f_false.as_ref().map(|a| a.to_json())}}),
+            Case::FromPoly { rows, f_true, f_false, fortran } => json!({"from_poly": {"rows": rows, "f_true": f_true.to_json(), "f_false": f_false.as_ref().map(|a| a.to_json()), "column_major": fortran}}),
             Case::Slice { tree, refpt, elim } => json!({"from_slice_compose_remove_axes": {"tree": tree.to_json(), "reference_point(null=NaN)": refpt, "infeasible_elimination_before_remove_axes": elim}}),
             o => json!(format!("{:?}", o)),
         }
@@ -145,7 +145,11 @@ pub fn cases(tier: Tier) -> Vec<Case> {
         };
         for rows in poly_grid(dim, tier) {
             for (ft, ff) in &maps {
-                v.push(Case::FromPoly { rows: rows.clone(), f_true: ft.clone(), f_false: ff.clone() });
+                v.push(Case::FromPoly { rows: rows.clone(), f_true: ft.clone(), f_false: ff.clone(), fortran: false });
+                if dim >= 2 && rows.len() >= 2 {
+                    // the same with column-major storage of the polytope and of the functions
+                    v.push(Case::FromPoly { rows: rows.clone(), f_true: ft.clone(), f_false: ff.clone(), fortran: true });
+                }
             }
         }
     }
@@ -224,9 +228,10 @@ fn qo(x: f64) -> Q {
     Q::from_f64(x)
 }
 
-fn poly_of(rows: &[(Vec<f64>, f64)]) -> Polytope {
+fn poly_of(rows: &[(Vec<f64>, f64)], fortran: bool) -> Polytope {
+    use ndarray::ShapeBuilder;
     let n = rows[0].0.len();
-    let mut m = Array2::<f64>::zeros((rows.len(), n));
+    let mut m = if fortran { Array2::<f64>::zeros((rows.len(), n).f()) } else { Array2::<f64>::zeros((rows.len(), n)) };
     let mut b = Array1::<f64>::zeros(rows.len());
     for (i, (a, bb)) in rows.iter().enumerate() {
         for j in 0..n {
@@ -257,10 +262,10 @@ pub fn run_case(c: &Case) -> CaseOut {
         Case::Argmax(d) => (schema::argmax(*d), Box::new(RefNet::new(*d, vec![RLayer::Argmax])) as _, *d),
         Case::ClassChar(d, cl) => (schema::class_characterization(*d, *cl), Box::new(RefNet::new(*d, vec![RLayer::ClassChar(*cl)])) as _, *d),
         Case::InfNorm(d, lo, hi) => (schema::inf_norm(*d, *lo, *hi), Box::new(RefNet::new(*d, vec![RLayer::InfNorm(lo.map(qo), hi.map(qo))])) as _, *d),
-        Case::FromPoly { rows, f_true, f_false } => {
+        Case::FromPoly { rows, f_true, f_false, fortran } => {
             let n = rows[0].0.len();
-            let ffr = f_false.as_ref().map(|a| a.to_real());
-            let t = AffTree::<2>::from_poly(poly_of(rows), f_true.to_real(), ffr.as_ref()).expect("from_poly");
+            let ffr = f_false.as_ref().map(|a| if *fortran { a.to_real_f() } else { a.to_real() });
+            let t = AffTree::<2>::from_poly(poly_of(rows, *fortran), if *fortran { f_true.to_real_f() } else { f_true.to_real() }, ffr.as_ref()).expect("from_poly");
             let rq = rows_q(rows);
             let ft = f_true.to_map();
             let ff = f_false.as_ref().map(|a| a.to_map());
